@@ -72,6 +72,86 @@ def specC02 (st : State) : List Fml :=
   st.tasks.flatMap (fun t =>
     if t.work > 0 && !(workTerms st t).isEmpty then [Fml.ge (.sum (workTerms st t)) (numT t.work)] else [])
 
+/-! ### C03 -/
+
+def sched2 (t1 t2 : Task) (f : Fml) : Fml := .imp (.and [t1.schedF, t2.schedF]) f
+
+def ordF (k : OrdKind) (a b : Term) : Fml :=
+  match k with | .lax => .le a b | .strict => .lt a b | .tight => .eq a b
+
+def consecutiveF (k : OrdKind) : List Task → List Fml
+  | a :: b :: rest => ordF k a.eVar b.sVar :: consecutiveF k (b :: rest)
+  | _ => []
+
+def groupWindowF (ts : List Task) (window : Option (Int × Int)) (len : Int) : List Fml :=
+  match window with
+  | some (lo, hi) => ts.flatMap (fun t => [Fml.ge t.sVar (numT lo), Fml.le t.eVar (numT hi)])
+  | none => ts.flatMap (fun t => ts.map (fun t' => Fml.le (.sub t.eVar t'.sVar) (numT len)))
+
+/-- the task is inside one of the listed intervals -/
+def insideAny (t : Task) (ivs : List (Int × Int)) : Fml :=
+  .or (ivs.map (fun iv => Fml.and [.ge t.sVar (numT iv.1), .le t.eVar (numT iv.2)]))
+
+def CBody.taskMeaningF : CBody → Option Fml
+  | .startAt t v => some (.imp t.schedF (.eq t.sVar (numT v)))
+  | .startAfter t v strict => some (.imp t.schedF (if strict then .gt t.sVar (numT v) else .ge t.sVar (numT v)))
+  | .endAt t v => some (.imp t.schedF (.eq t.eVar (numT v)))
+  | .endBefore t v strict => some (.imp t.schedF (if strict then .lt t.eVar (numT v) else .le t.eVar (numT v)))
+  | .precedence b a off kind => some (sched2 b a (ordF kind (.add b.eVar (numT (max 0 off))) a.sVar))
+  | .startSynced t1 t2 => some (sched2 t1 t2 (.eq t1.sVar t2.sVar))
+  | .endSynced t1 t2 => some (sched2 t1 t2 (.eq t1.eVar t2.eVar))
+  | .dontOverlap t1 t2 => some (sched2 t1 t2 (.or [.le t1.eVar t2.sVar, .le t2.eVar t1.sVar]))
+  | .unorderedGroup ts window len => some (.and (groupWindowF ts window len))
+  | .orderedGroup ts window len kind => some (.and (groupWindowF ts window len ++ consecutiveF kind ts))
+  | .scheduleN ts n ivs kind =>
+      -- only the lower side is enforced by the library (known finding F11): `min` is stated, and the
+      -- lower half of `exact`
+      (match kind with
+       | .max => none
+       | _ => some (.ge (.sum (ts.map (fun t => Term.ite (insideAny t ivs) (numT 1) (numT 0)))) (numT n)))
+  | .forceSchedule t b => some (.iff (.bvar (.sched t.name)) (if b then .tt else .ff))
+  | .conditionSchedule t cond => some (.iff (.bvar (.sched t.name)) cond)
+  | .dependency t1 t2 => some (.iff (.bvar (.sched t2.name)) t1.schedF)
+  | .forceScheduleN ts n kind => some (countF kind (ts.map (fun t => Fml.bvar (.sched t.name))) n)
+  | _ => none
+
+def specC03 (st : State) : List Fml :=
+  (st.constrs.filter (fun c => !c.operand)).filterMap (fun c =>
+    match c.body.taskMeaningF with
+    | some f => some (if c.optional then Fml.imp (.bvar (.applied c.id)) f else f)
+    | none => none)
+
+/-! ### C04 -/
+
+def maxT (a b : Term) : Term := .ite (.ge a b) a b
+def minT (a b : Term) : Term := .ite (.le a b) a b
+def overlapT (b : BusyRef) (lo hi : Int) : Term :=
+  maxT (numT 0) (.sub (minT b.e (numT hi)) (maxT b.s (numT lo)))
+
+def CBody.resMeaningF : CBody → Option Fml
+  | .unavailable busy ivs =>
+      some (.and (ivs.flatMap (fun iv => busy.map (fun b => Fml.or [.ge b.s (numT iv.2), .le b.e (numT iv.1)]))))
+  | .workload busy ivs kind =>
+      some (.and (ivs.map (fun iv =>
+        let total := Term.sum (busy.map (fun b => overlapT b iv.1.1 iv.1.2))
+        match kind with
+        | .exact => Fml.eq total (numT iv.2)
+        | .max => Fml.le total (numT iv.2)
+        | .min => Fml.ge total (numT iv.2))))
+  | .sameWorkers s1 s2 =>
+      some (.and ((s1.workers.filter (fun w => s2.workers.contains w)).map (fun w =>
+        Fml.iff (.bvar (.sel s1.id w)) (.bvar (.sel s2.id w)))))
+  | .distinctWorkers s1 s2 =>
+      some (.and ((s1.workers.filter (fun w => s2.workers.contains w)).map (fun w =>
+        Fml.not (.and [.bvar (.sel s1.id w), .bvar (.sel s2.id w)]))))
+  | _ => none
+
+def specC04 (st : State) : List Fml :=
+  (st.constrs.filter (fun c => !c.operand)).filterMap (fun c =>
+    match c.body.resMeaningF with
+    | some f => some (if c.optional then Fml.imp (.bvar (.applied c.id)) f else f)
+    | none => none)
+
 /-! ### C10 -/
 
 def allOf (os : List (List Fml)) : Fml := .and (os.map Fml.and)
